@@ -187,7 +187,9 @@ def compare(ref, oth, s, cfg, viol, tag, pot1, pot_s):
         if (ref["vw"] is None) != (oth["vw"] is None) or ref["solutionType"] != oth["solutionType"]:
             fail("solve", "outcome", 1.0, 0.0,
                  f"({ref['solutionType']}, v={ref['vw']} vs {oth['solutionType']}, v={oth['vw']})")
-            obs["_solve_diverged_at"] = max(ref["vMin"], 1e-3)
+            cands = [max(ref["vMin"], 1e-3), 0.999 * min(ref["vJ"], ref["fastestDeflag"])]
+            cands += [r_["vw"] for r_ in (ref, oth) if r_.get("vw") is not None]
+            obs["_solve_diverged_at"] = cands
         elif ref["vw"] is not None and ref["success"] and oth["success"]:
             d = abs(ref["vw"] - oth["vw"])
             obs["vw"] = d
@@ -229,6 +231,9 @@ def run_case(case):
         return {"key": key0, "cls": "reference-failed", "nontrivial": False,
                 "obs": {"error": repr(exc)[:300], "spec": spec}, "viol": [], "mon": mon}
     pot1 = ref.pop("_pot", None)
+    if "raised" in ref:
+        return {"key": key0, "cls": "reference-failed", "nontrivial": False,
+                "obs": {"error": ref["raised"], "spec": spec}, "viol": [], "mon": mon}
     if not ref["p_trace"]:
         return {"key": key0, "cls": "inadmissible(P_trace)", "nontrivial": False,
                 "obs": {"why": ref["p_trace_why"], "spec": spec}, "viol": [], "mon": mon}
@@ -249,6 +254,21 @@ def run_case(case):
             classes.append("partner-raised")
             continue
         pot_s = oth.pop("_pot", None)
+        sp_o = oth.get("spacing", {})
+        sp_r = ref.get("spacing", {})
+        dup = [k for k in ("H", "L") if sp_o.get(k, {}).get("at_start")
+               and sp_o[k]["min_over_median"] < 1e-3
+               and not (sp_r.get(k, {}).get("min_over_median", 1) < 1e-3)]
+        if "raised" in oth:
+            mech = "not-covariant:pipeline-raises"
+            if dup:
+                mech = "not-covariant:first-step-absolute-duplicate-abscissa"
+            viol.append({"mech": mech,
+                         "msg": f"{tag}: set-up at unit factor {s:g} raised {oth['raised']} "
+                         f"while the reference run succeeded (table spacing {sp_o})",
+                         "data": {"factor": s}})
+            classes.append("partner-raised")
+            continue
         if not oth["p_trace"]:
             # the same model traced fine at s=1: tracing that depends on units
             mech = "not-covariant:trace-leaves-branch"
@@ -273,6 +293,16 @@ def run_case(case):
             continue
         nv = len(viol)
         o, units_mech = compare(ref, oth, float(s), cfg, viol, tag, pot1, pot_s)
+        if dup and any(x["mech"].startswith(("not-covariant:eos", "not-covariant:hydro",
+                                             "not-covariant:lte")) for x in viol[nv:]):
+            # the partner's table has two abscissae ~1e-6 (absolute, in its own units) apart
+            # at the starting temperature: scipy's RK45 falls back to an *absolute* first
+            # step of 1e-6 when the state is ~0 (symmetric phase); the cubic spline's second
+            # derivative is then noise exactly at T_n, where c_s^2, alpha_n, vJ are taken
+            for x in viol[nv:]:
+                if x["mech"].startswith("not-covariant:") and not x["mech"].endswith("gradient-tolerance"):
+                    x["msg"] += f" | table spacing at T_n (min/median) {sp_o}"
+                    x["mech"] = "not-covariant:first-step-absolute-duplicate-abscissa"
         from wgverif.checks.C08 import reclassify_solve
         reclassify_solve(viol, nv, o, {**spec, "s": 1.0}, cfg, mon)
         if units_mech:
